@@ -428,6 +428,14 @@ def run_inline_em(key):
         pa.DHTVPermutationAlignment(stft_size=2 * (F - 1), segment_start=1,
                                     segment_width=max(1, F // 2), segment_shift=1,
                                     main_iterations=3, sub_iterations=2)
+    mask = None
+    extra = {}
+    if key.get('mask'):
+        # a source-activity mask together with the inline aligner: the last class is inactive in the first half
+        # of the frames; the alignment may only reorder what the masked E-step produced
+        mask = np.ones((F, K, N), dtype=bool)
+        mask[:, K - 1, : N // 2] = False
+        extra['source_activity_mask'] = mask
     trace = []
     _verif.clear()
     _verif.register(lambda **kw: trace.append(kw))
@@ -440,7 +448,7 @@ def run_inline_em(key):
         else:
             tr = d.CBMMTrainer()
         tr.fit(y, initialization=init, iterations=4, weight_constant_axis=wca,
-               inline_permutation_aligner=aligner)
+               inline_permutation_aligner=aligner, **extra)
     except Exception as e:  # noqa
         return viol(f'{model} fit with inline aligner raised {e!r}')
     finally:
@@ -451,7 +459,7 @@ def run_inline_em(key):
     for it in range(1, 4):
         prev = trace[it - 1]['model']
         if model == 'cacgmm':
-            e_aff, e_q = prev.predict(y, return_quadratic_form=True)
+            e_aff, e_q = prev.predict(y, return_quadratic_form=True, source_activity_mask=mask)
             # EM uses affiliation_eps (clip): compare on the un-clipped permutation structure
             e_aff = np.clip(e_aff, 1e-10, 1 - 1e-10)
         elif model == 'cwmm':
@@ -486,6 +494,7 @@ def run_inline_em(key):
 
 GRID = (0.0, -1.0, -3.0)
 WIDE = (0.0, -800.0, -2000.0)    # class log-likelihoods further apart than the exp() range
+FINE = (-3.0, -3.001, -3.002)     # nearly tied classes with a clearly negative criterion
 
 
 def run_builtin(key):
@@ -495,7 +504,7 @@ def run_builtin(key):
     n = K * F * T
     digits = []
     x = idx
-    grid = WIDE if key.get('grid') == 'wide' else GRID
+    grid = {'wide': WIDE, 'fine': FINE}.get(key.get('grid'), GRID)
     for _ in range(2 * n):
         digits.append(grid[x % 3])
         x //= 3
@@ -646,9 +655,11 @@ def subchecks(tier, seed):
                         for wca in ('f', 'ft'):
                             if model == 'cbmm' and (K == 3 or F == 5) and not thorough:
                                 continue
-                            yield (model, K, F, 8 * K, K + 1, aligner, wca, seed)
+                            yield (model, K, F, 8 * K, K + 1, aligner, wca, False, seed)
+                            if model == 'cacgmm':
+                                yield (model, K, F, 8 * K, K + 1, aligner, wca, True, seed)
     subs.append(Sub('inline_alignment_in_em',
-                    ('model', 'K', 'F', 'T', 'D', 'aligner', 'wca', 'seed'),
+                    ('model', 'K', 'F', 'T', 'D', 'aligner', 'wca', 'mask', 'seed'),
                     inline_em_cases, run_inline_em, require_flags=('non_identity',)))
 
     def builtin_cases():
@@ -661,6 +672,7 @@ def subchecks(tier, seed):
                     yield (K, F, T, idx, w, 'narrow')
                     if (K, F, T) in ((2, 1, 1), (2, 1, 2), (3, 1, 1)) and (thorough or w == 'uniform'):
                         yield (K, F, T, idx, w, 'wide')
+                        yield (K, F, T, idx, w, 'fine')
     subs.append(Sub('builtin_spatial_spectral_pa', ('K', 'F', 'T', 'idx', 'w', 'grid'),
                     builtin_cases, run_builtin,
                     bound=dict(grid=list(GRID), wide_grid=list(WIDE), tables='all stream tables of the listed shapes'),
